@@ -341,10 +341,15 @@ pub fn execute_v2(deps: DepsMut, env: Env, info: MessageInfo, msg: Script) -> St
     deps.storage.set(b"v2", b"1");
     enter("execute_v2", deps, env, Some(info), None, msg)
 }
+/// ... and its replies are recorded as `reply_v2` (which code served a reply is observable)
+pub fn reply_v2(deps: DepsMut, env: Env, msg: Reply) -> StdResult<Response> {
+    let script: Script = if msg.payload.is_empty() { Script::new() } else { cosmwasm_std::from_json(&msg.payload)? };
+    enter("reply_v2", deps, env, None, Some(msg), script)
+}
 pub fn contract_v2() -> Box<dyn Contract<Empty>> {
     Box::new(
         ContractWrapper::new(execute_v2, instantiate, query)
-            .with_reply(reply)
+            .with_reply(reply_v2)
             .with_sudo(sudo)
             .with_migrate(migrate),
     )
